@@ -198,6 +198,7 @@ var nilIface = T("(mkiface 0 null)", SIface)
 // VC accumulates declarations, assumptions and obligations for one function
 // under contract.
 type VC struct {
+	defined map[string]bool
 	preamble []string // datatype / sort declarations (fixed)
 	decls    []string // define-fun / declare-const in program order
 	n        int
@@ -276,10 +277,17 @@ func (vc *VC) def(prefix string, t Term) Term {
 	vc.n++
 	name := fmt.Sprintf("%s!%d", sanitize(prefix), vc.n)
 	vc.decls = append(vc.decls, fmt.Sprintf("(define-fun %s () %s %s)", name, t.Sort, t.S))
+	if vc.defined == nil {
+		vc.defined = map[string]bool{}
+	}
+	vc.defined[name] = true
 	r := t
 	r.S = name
 	return r
 }
+
+// isDefined: the name is a define-fun abbreviation (expanded by the solver), not a constant.
+func (vc *VC) isDefined(name string) bool { return vc.defined[name] }
 
 func (vc *VC) fresh(prefix string, so Sort) Term {
 	vc.n++
